@@ -247,7 +247,8 @@ let classify_eval (args : sx) (real : string) (model : string) : string =
               | _ -> ())
          | _ -> ());
         if !parts = [] then "holds" else String.concat " " (List.rev !parts)
-    | `Err, `Ok _ | `Ok _, `Err -> "accept"
+    | `Err, `Ok _ -> "accept rejected"       (* a text the grammar (= the model, C08) gives a tree is refused: no diagram for a well-formed formula *)
+    | `Ok _, `Err -> "accept"
     | `Div, `Ok _ -> "no-result"
     | `Ok _, `Div -> "model-diverges"
     | _ -> "unclassified"
